@@ -226,16 +226,28 @@ Arguments handle_waiting_for_finished_ack : simpl never.
 Lemma nif_waiting_fin_ack : forall k pkt s,
   d_step s = DS_WAITING_FOR_FINISHED_ACK -> d_queue s = [] ->
   non_idle_fsm (S k) pkt s =
-  handle_waiting_for_finished_ack (s0 <- get ;; when (d_state s0 =? ST_BUSY) (non_idle_fsm k None))%monad pkt s.
+  handle_waiting_for_finished_ack
+    (catch_abandoned (s0 <- get ;; when (d_state s0 =? ST_BUSY) (non_idle_fsm k None)))%monad pkt s.
 Proof.
   intros k pkt s Hstep Hq.
   destruct s as [cfg st step stid ready q p env]. cbn in Hstep, Hq. subst step q.
   cbn [non_idle_fsm]. unfold fsm_advancement, step_is, get_step. msimp. reflexivity.
 Qed.
 
-Lemma dsm_none : forall s, d_state s = ST_BUSY -> Dest.state_machine None s = non_idle_fsm 3 None s.
+(* a state_machine() call swallows the abandon signal (try ... except _TransactionAbandoned: pass) *)
+Lemma ca_ok : forall (m : D unit) s s1 u, m s = (s1, Ok u) -> catch_abandoned m s = (s1, Ok u).
+Proof. intros m s s1 u H. unfold catch_abandoned, catch. rewrite H. reflexivity. Qed.
+
+Lemma dsm_none : forall s, d_state s = ST_BUSY ->
+  Dest.state_machine None s = catch_abandoned (non_idle_fsm 3 None) s.
 Proof.
-  intros s H. unfold Dest.state_machine, get, bind, ret, when. rewrite H.
+  intros s H. unfold Dest.state_machine. unfold bind at 1. unfold ret at 1. cbv beta iota.
+  unfold catch_abandoned, catch.
+  assert ((s0 <- get ;;
+           stop <- (if d_state s0 =? ST_IDLE then idle_fsm None ;;; n <- gets d_ready ;; ret (0 <? n) else ret false) ;;
+           if stop then ret tt else s1 <- get ;; when (d_state s1 =? ST_BUSY) (non_idle_fsm 3 None))%monad s
+          = non_idle_fsm 3 None s) as ->; [|reflexivity].
+  unfold get, bind, ret, when. rewrite H.
   change (ST_BUSY =? ST_IDLE) with false. cbv beta iota. rewrite H. reflexivity.
 Qed.
 
@@ -243,7 +255,7 @@ Lemma dst_fin_wait : forall s r t a b,
   dst_waiting_fin_ack s r t a b -> timed_out (now_d s) t = false -> Dest.state_machine None s = (s, Ok tt).
 Proof.
   intros s r t a b (Hst & Hstep & Hq & Hrd & Hr & Ht & Htid & Hm) Hto. unfold now_d in Hto.
-  rewrite dsm_none, nif_waiting_fin_ack by assumption.
+  rewrite dsm_none by assumption. apply ca_ok. rewrite nif_waiting_fin_ack by assumption.
   unfold handle_waiting_for_finished_ack, handle_positive_ack_procedures, rcfg_or_assert, now, gp, gets, bind, ret.
   rewrite Ht. cbv beta iota. rewrite Hr. cbv beta iota. rewrite Hto. reflexivity.
 Qed.
@@ -259,7 +271,7 @@ Lemma dst_fin_resend : forall s r t a b,
 Proof.
   intros s r t a b (Hst & Hstep & Hq & Hrd & Hr & Ht & Htid & Hm) Hto Hlim. unfold now_d, log_d, fs_d in *.
   assert (r_ack_limit r <=? p_ack_counter (d_p s) + 1 = false) as Hle by (apply Z.leb_gt; lia).
-  rewrite dsm_none, nif_waiting_fin_ack by assumption.
+  rewrite dsm_none by assumption. unfold catch_abandoned at 1, catch. rewrite nif_waiting_fin_ack by assumption.
   ddst s. cbn in *. subst st step q ready rc ackt tid.
   unfold handle_waiting_for_finished_ack, handle_positive_ack_procedures. msimp.
   rewrite Hto. msimp. rewrite Hle. msimp.
@@ -279,7 +291,7 @@ Lemma dst_fin_limit_abandons : forall s r t a b,
 Proof.
   intros s r t a b (Hst & Hstep & Hq & Hrd & Hr & Ht & Htid & Hm) Hto Hlim Hdisp. unfold now_d, log_d in *.
   assert (r_ack_limit r <=? p_ack_counter (d_p s) + 1 = true) as Hle by (apply Z.leb_le; lia).
-  rewrite dsm_none, nif_waiting_fin_ack by assumption.
+  rewrite dsm_none by assumption. unfold catch_abandoned at 1, catch. rewrite nif_waiting_fin_ack by assumption.
   ddst s. cbn in *. subst st step q ready rc ackt tid disp.
   unfold handle_waiting_for_finished_ack, handle_positive_ack_procedures. msimp.
   rewrite Hto. msimp. rewrite Hle. msimp.
@@ -293,6 +305,7 @@ Lemma dst_fin_ack_ends : forall s r t a b h acked c st,
 Proof.
   intros s r t a b h acked c st0 (Hst & Hstep & Hq & Hrd & Hr & Ht & Htid & Hm) Hci. unfold log_d.
   unfold Dest.state_machine. unfold bind at 1. rewrite Hci.
+  unfold catch_abandoned, catch.
   unfold get, bind, ret, when. rewrite Hst. change (ST_BUSY =? ST_IDLE) with false. cbv beta iota. rewrite Hst.
   change (ST_BUSY =? ST_BUSY) with true. cbv beta iota.
   rewrite nif_waiting_fin_ack by assumption.
@@ -381,12 +394,13 @@ Proof.
   intros s r t a b (Hst & Hstep & Hq & Hrd & Hr & Ht & Htid & Hm) Hto Hlim Hdisp Hfh Hms. unfold now_d, log_d in *.
   assert (r_ack_limit r <=? p_ack_counter (d_p s) + 1 = true) as Hle by (apply Z.leb_le; lia).
   assert (p_disp (d_p s) =? DISP_CANCELED = false) as Hdc by (apply Z.eqb_neq; exact Hdisp).
-  rewrite dsm_none, nif_waiting_fin_ack by assumption.
+  rewrite dsm_none by assumption. unfold catch_abandoned at 1, catch. rewrite nif_waiting_fin_ack by assumption.
   remember (non_idle_fsm 2 None) as ag eqn:Hag.
   ddst s. cbn in Hst, Hstep, Hq, Hrd, Hr, Ht, Htid, Hm, Hto, Hlim, Hdisp, Hfh, Hle, Hdc. subst st step q ready rc ackt tid.
   unfold handle_waiting_for_finished_ack, handle_positive_ack_procedures. msimp.
   rewrite Hto. msimp. rewrite Hle. msimp. rewrite Hdc. msimp.
   unfold declare_fault. msimp. rewrite Hfh. msimp.
+  unfold catch_abandoned, catch. msimp.
   subst ag.
   match goal with |- context[non_idle_fsm 2 None ?st] => nstate st end.
   match goal with |- context[non_idle_fsm 2 None ?st] =>
@@ -398,4 +412,27 @@ Proof.
   split; [exact Hq'|]. split; [exact Hc'|]. split; [exact Ht'|]. split; [exact Hstep'|]. split; [exact Hst'|].
   split; [exact Hd'|].
   exists evs. split; [exact Hlog | exact Hevs].
+Qed.
+
+(* expiry N, transaction not yet cancelled, limit fault configured as ABANDON (F25-F27 repair): the abandon signal
+   unwinds the call; the handler is idle with fresh_params, only the abandon callback is logged,
+   nothing is re-sent and the call returns normally (before the repair: AttributeError on the cleared timer) *)
+Lemma dst_fin_limit_handler_abandons : forall s r t a b,
+  dst_waiting_fin_ack s r t a b -> timed_out (now_d s) t = true -> r_ack_limit r <= p_ack_counter (d_p s) + 1 ->
+  p_disp (d_p s) <> DISP_CANCELED -> get_fault_handler (l_faults (d_cfg s)) C_POS_ACK_LIMIT = Some FH_ABANDON ->
+  exists s', Dest.state_machine None s = (s', Ok tt) /\
+    d_state s' = ST_IDLE /\ d_step s' = DS_IDLE /\ d_queue s' = [] /\ d_ready s' = 0 /\ d_p s' = fresh_params /\
+    fs_d s' = fs_d s /\
+    log_d s' = EvFault FH_ABANDON a b C_POS_ACK_LIMIT (p_progress (d_p s)) :: log_d s.
+Proof.
+  intros s r t a b (Hst & Hstep & Hq & Hrd & Hr & Ht & Htid & Hm) Hto Hlim Hdisp Hfh. unfold now_d, log_d, fs_d in *.
+  assert (r_ack_limit r <=? p_ack_counter (d_p s) + 1 = true) as Hle by (apply Z.leb_le; lia).
+  assert (p_disp (d_p s) =? DISP_CANCELED = false) as Hdc by (apply Z.eqb_neq; exact Hdisp).
+  rewrite dsm_none by assumption. unfold catch_abandoned at 1, catch. rewrite nif_waiting_fin_ack by assumption.
+  remember (non_idle_fsm 2 None) as ag eqn:Hag.
+  ddst s. cbn in Hst, Hstep, Hq, Hrd, Hr, Ht, Htid, Hm, Hto, Hlim, Hdisp, Hfh, Hle, Hdc. subst st step q ready rc ackt tid.
+  unfold handle_waiting_for_finished_ack, handle_positive_ack_procedures. msimp.
+  rewrite Hto. msimp. rewrite Hle. msimp. rewrite Hdc. msimp.
+  unfold declare_fault. msimp. rewrite Hfh. msimp.
+  eexists. split; [reflexivity|]. cbn. repeat split; reflexivity.
 Qed.
